@@ -30,8 +30,11 @@ def _jobs(tier, seed):
         r = rng if i % 4 else rng2
         rules = sugar.from_plain(g, r, p_mult=0.45)
         if i % 3 == 0:
-            rules = sugar.add_groups(rules, r, 0.5)
+            rules = sugar.strip_none_repetitions(sugar.add_groups(rules, r, 0.5))
         jobs.append({"rules": rules, "greedy": False, "origin": "det" if i % 4 else "rand", "nsent": p["nsent"], "seed": r.randrange(1 << 30)})
+        if i % 5 == 1:
+            # the same rules over inline punctuation string terminals ("+"*, "-"?): helper rules named after the string itself
+            jobs.append({"rules": sugar.inline_variant(rules), "greedy": False, "inline": True, "origin": "det", "nsent": p["nsent"], "seed": 5000 + i})
     for k, (pat, gi) in enumerate(GREEDY_PATTERNS):
         jobs.append({"pattern": pat, "gi": gi, "greedy": True, "origin": "det", "nsent": p["nsent"], "seed": 1000 + k})
     return jobs
@@ -89,7 +92,7 @@ def _glr(real, parser, w, akind_ok=True):
         with real.guard(6), real.quiet():
             f = parser.parse(w)
             try:
-                n = len(f)
+                n = real.flen(f)
             except real.LoopError:
                 return {"ok": True, "complete": False, "trees": [], "results": []}
             k = min(n, 12)
@@ -120,7 +123,8 @@ def worker(job):
     case["assign"] = [[] for _ in g.productions]
     lr, _ = real.build("lr", text)
     # the REAL parsers on the documented expansion written out as plain BNF (with the documented {nops} and built-in actions)
-    xtext = sugar.expand_text(sugar.strip_greedy(rules)) if not job["greedy"] else None
+    # (helper names like "+_1" cannot be written as rule names: no written-out expansion for the inline-string variant)
+    xtext = sugar.expand_text(sugar.strip_greedy(rules)) if not job["greedy"] and not job.get("inline") else None
     lrx = glrps = glrpsx = None
     if xtext:
         lrx, _ = real.build("lr", xtext)
